@@ -79,6 +79,24 @@ def _oracle(case, rng, est=None):
     return None
 
 
+def unexcited_cases(rng):
+    """every kind of stage, alone and behind a polynomial stage, fitted on data whose INPUT columns are identically zero
+    (an unexcited input is valid data); the oracle then replaces the inputs by non-zero values"""
+    for kind in KINDS:
+        for nu in (1, 2):
+            nx = 2
+            stage = None
+            for _ in range(20):
+                stage = pipes.gen_row_stage(rng, [kind], nx, nu)
+                if kind != 'delay' or stage['dx'] + stage['du'] <= 3:
+                    break
+            ep = rng.random() < 0.5
+            m = pipes.loss(stage) + 2
+            n = m + 3
+            rows = [([0] if ep else []) + [round(rng.uniform(-2, 2), 3) for _ in range(nx)] + [0.0] * nu for _ in range(n)]
+            yield {'spec': stage, 'nx': nx, 'nu': nu, 'ep': ep, 'rows': rows, 'min_len': m, 'form': 'c', 'degenerate': True}
+
+
 def oracle(case, rng, est=None):
     try:
         return _oracle(case, rng, est)
@@ -117,6 +135,11 @@ def run(ctx):
         toks, _ = pipes.tokens(c['spec'], est)
         lines += [l1, l2, f"fit {c['nx']} {c['nu']} {toks}"]
         meta.append((c, est, Xt, cells, reg))
+    for c in unexcited_cases(ctx.rng):
+        ctx.count('unexcited-input sweep')
+        why = oracle(c, ctx.rng)
+        if why:
+            ctx.fail(why + ' (estimator fitted on data with identically zero input columns)', c, st.case_tags(c))
     replies = drv.ask(lines)
     bad = []
     for i, (c, est, Xt, cells, reg) in enumerate(meta):
